@@ -124,6 +124,23 @@ def gen_graph(eng, tag, widths, fam, nids=None, eids=None, qterm=None, symbolic_
     return g, desc
 
 
+def type_invariant_fails(g):
+    fails = []
+    if not isinstance(g.nid_terminal, list) or len(g.nid_terminal) != 2:
+        fails.append(f'nid_terminal is a {type(g.nid_terminal).__name__}, not a list of two ids (a later rename of a terminal node would fail)')
+    if not isinstance(g.nodes, dict) or not isinstance(g.edges, dict):
+        fails.append('nodes / edges are not dictionaries')
+    for n in g.nodes.values():
+        if not (isinstance(n.eids, tuple) and len(n.eids) == 2 and all(isinstance(x, list) for x in n.eids)):
+            fails.append('node.eids is not a pair of lists')
+            break
+    for e in g.edges.values():
+        if not isinstance(e.nids, list) or len(e.nids) != 2 or not isinstance(e.opics, list):
+            fails.append('edge.nids / edge.opics are not lists')
+            break
+    return fails
+
+
 def graph_to_json(g):
     return dict(nodes=[dict(nid=n.nid, eids_in=list(n.eids[0]), eids_out=list(n.eids[1]), qnum=n.qnum) for n in g.nodes.values()],
                 edges=[dict(eid=e.eid, nids=list(e.nids), opics=[[o, c] for o, c in e.opics]) for e in g.edges.values()],
@@ -291,6 +308,8 @@ def path(eng, acc, task, focus='C16'):
         return
     if not cons:
         fails.append(f'graph inconsistent after {op}')
+    # representation invariant of the one-step induction: the container types every later rewrite relies on
+    fails += type_invariant_fails(g)
     if focus == 'C20':
         # compactness only: simplification never increases a layer width (= bond dimension)
         if op in ('simplify', 'seq2', 'merge', 'add'):
